@@ -35,7 +35,8 @@ def interactive_msg(msg, filltext=None):
         msg = textwrap.fill(msg, width=filltext - len(_prefix))
     msg = textwrap.indent(msg, _prefix, lambda line: True)
 
-    if sys.stdin.isatty():
+    # (the standard input may be closed altogether)
+    if sys.stdin is not None and sys.stdin.isatty():
         print(msg, file=sys.stderr)
 
 
